@@ -115,6 +115,22 @@ def main():
         m = sys.modules.get(name)
         res['files'][name] = getattr(m, '__file__', None) if m is not None else None
     res['modules_loaded'] = sorted(k for k in sys.modules if k.split('.')[0] in ('bs4', 'soupsieve'))
+    # "import soupsieve.x" must hand out the module: the package attribute and sys.modules have to agree
+    bad = []
+    pkg = sys.modules.get('soupsieve')
+    if pkg is not None:
+        import types
+        for k in res['modules_loaded']:
+            if k.startswith('soupsieve.') and k.count('.') == 1:
+                name = k.split('.')[1]
+                mod = sys.modules.get(k)
+                attr = getattr(pkg, name, None)
+                if not isinstance(mod, types.ModuleType) or attr is not mod:
+                    bad.append([k, type(attr).__name__])
+        missing = [n for n in getattr(pkg, '__all__', ()) if not hasattr(pkg, n)]
+        if missing:
+            bad.append(['__all__', 'missing: ' + ', '.join(missing)])
+    res['submodule_binding_errors'] = bad
     with open(out_path, 'w') as f:
         json.dump(res, f)
 
